@@ -42,7 +42,7 @@ class Obligations(object):
         return r
 
     def prove(self, name, goal, assumptions=(), vars_=None, site=None, expected=None, extract=None,
-              vacuity=False):
+              vacuity=False, lemmas=()):
         """decide `assumptions => goal` for all values. sat -> counterexample dict (model) recorded.
 
         vars_: simdrv.Vars used to read back the model; extract(model) -> extra dict for the replay file.
@@ -70,6 +70,20 @@ class Obligations(object):
                     pass
         s.add(z3.Not(goal))
         r = self._check(s)
+        if r == z3.unknown and getattr(self, 'fallback', False):
+            # second attempt (opt-in per harness): normalise extract/concat/ite noise, then bit-blast + SAT
+            try:
+                t0 = time.time()
+                g2 = z3.Goal()
+                for a in s.assertions():
+                    g2.add(a)
+                tac = z3.TryFor(z3.Then('simplify', 'propagate-values', 'solve-eqs', 'simplify', 'bit-blast', 'sat'), self.timeout_ms)
+                res = tac(g2)
+                self.solver_s += time.time() - t0
+                if len(res) == 1 and res[0].inconsistent():
+                    r = z3.unsat
+            except Exception:
+                pass
         if self.sample is None or (r == z3.unsat and 'syntactically' in self.sample.get('result', '')):
             try:
                 digest = hashlib.sha1(s.to_smt2().encode()).hexdigest()[:16]
@@ -77,6 +91,12 @@ class Obligations(object):
                 digest = None
             self.sample = {'obligation': name, 'result': str(r), 'smt2_sha1': digest,
                            'assertions': len(s.assertions())}
+        if r == z3.sat and lemmas:
+            # `lemmas` (e.g. ROM table facts for uninterpreted functions) are only needed to rule out spurious models:
+            # an unsat without them is already a proof; a sat is re-decided with them
+            for a in lemmas:
+                s.add(a)
+            r = self._check(s)
         if r == z3.unsat:
             self.unsat += 1
             return 'unsat'
@@ -94,14 +114,14 @@ class Obligations(object):
         self.sat.append(cex)
         return 'sat'
 
-    def prove_all(self, goals, assumptions, v, vacuity=True):
+    def prove_all(self, goals, assumptions, v, vacuity=True, lemmas=()):
         """discharge a batch [(name, goal, site)]: one conjunction first, individual queries only to localise"""
         if not goals:
             return
         conj = z3.And(*[g for _, g, _ in goals])
         n0 = self.n
         r = self.prove('batch(%d):%s..' % (len(goals), goals[0][0]), conj, assumptions, v, site=goals[0][2],
-                       vacuity=vacuity)
+                       vacuity=vacuity, lemmas=lemmas)
         if r == 'unsat':
             self.n += len(goals) - 1
             self.unsat += len(goals) - 1
@@ -112,7 +132,7 @@ class Obligations(object):
             self.unknown.pop()
         self.n = n0
         for name, g, site in goals:
-            self.prove(name, g, assumptions, v, site=site)
+            self.prove(name, g, assumptions, v, site=site, lemmas=lemmas)
 
     def fact(self, name, ok, site=None, detail=None):
         """a concrete (structural) predicate on the real code's result; False is a violation candidate"""
